@@ -17,6 +17,8 @@ func main() {
 		switch *sub {
 		case "c18":
 			subC18(flag.Arg(0))
+		case "race":
+			subRace(flag.Arg(0), *tier, *seed)
 		default:
 			runSub(*sub, flag.Args())
 		}
@@ -37,6 +39,20 @@ func main() {
 		runTeardownSuite(rep, *tier, *seed, prop)
 	case "C18":
 		runC18(rep, *tier, *seed)
+	case "C09":
+		runC09(rep, *tier, *seed)
+	case "C17":
+		runC17(rep, *tier, *seed)
+	case "C11":
+		runC11(rep, *tier, *seed)
+	case "C12":
+		runC12(rep, *tier, *seed)
+	case "C13":
+		runC13(rep, *tier, *seed)
+	case "C08":
+		runC08(rep, *tier, *seed)
+	case "C20":
+		runC20(rep, *tier, *seed)
 	case "C01":
 		runC01(rep, *tier, *seed)
 	case "C02":
